@@ -166,6 +166,24 @@ def stereo_mol_graph_to_rdmol(
 
     map_num_idx_dict = {v: k for k, v in idx_map_num_dict.items()}
 
+    # The bonds of octahedral centres are re-created in the order that the
+    # permutation labels OH1 / OH2 refer to. This changes the neighbour order
+    # of the ligand atoms as well, so it has to be done before any chiral tag
+    # that depends on a neighbour order is assigned.
+    for atom in graph.atoms:
+        a_stereo = graph.get_atom_stereo(atom)
+        if a_stereo is not None and isinstance(a_stereo, Octahedral):
+            atom_idx = map_num_idx_dict[atom]
+            for rd_n in mol.GetAtomWithIdx(atom_idx).GetNeighbors():
+                mol.RemoveBond(rd_n.GetIdx(), atom_idx)
+
+            for a in (1, 5, 6, 3, 4, 2):
+                a = a_stereo.atoms[a]
+                mol.AddBond(
+                    atom_idx,
+                    map_num_idx_dict[a],
+                )
+
     for atom in graph.atoms:
         a_stereo = graph.get_atom_stereo(atom)
         atom_idx = map_num_idx_dict[atom]
@@ -294,15 +312,6 @@ def stereo_mol_graph_to_rdmol(
 
 
         elif a_stereo is not None and isinstance(a_stereo, Octahedral):
-            for rd_n in rd_atom.GetNeighbors():
-                mol.RemoveBond(rd_n.GetIdx(), atom_idx)
-
-            for a in (1, 5, 6, 3, 4, 2):
-                a = a_stereo.atoms[a]
-                mol.AddBond(
-                    atom_idx,
-                    map_num_idx_dict[a],
-                )
             rd_atom.SetChiralTag(Chem.ChiralType.CHI_OCTAHEDRAL)
             rd_atom.SetHybridization(Chem.HybridizationType.SP3D2)
             if a_stereo.parity == 1:
